@@ -171,6 +171,7 @@ func C13(c *core.Ctx) {
 	c.Explain = "Value round-trips and 'the checked-in generated code is what the generator produces' are NOT decided (the latter needs the generator to be run, which is outside static analysis). Decided structural necessary conditions for every generated model, discovered at check time by scanning all packages for '+tlv-model' definitions next to a zz_generated.go: (R13.1) the TLV type numbers of the definition's struct tags = the case labels of the generated parser's type switch = the type numbers the generated encoder writes, and for ordered models each case tests progress+1 against that field's definition index; (R13.2) in every generated parser the ErrUnrecognizedField return is enter-gated by ¬ignoreCritical and by (typ ≤ 31 ∨ typ&1 == 1) with exactly these constants, each alternative alone suffices, and every non-rejected unknown element is skipped with reader.Skip(int(l)); (R13.3) ordered-parse progress invariant: on the path through the unknown-element branch the field cursor 'progress' is decremented before the loop's post-increment (net change 0), otherwise an unknown non-critical element shifts the cursor and all later fields are lost; (R13.4) the size tables of the generated encoders are decided under C03 R3.3 and re-run here."
 	c.RuleText = "instances: every '+tlv-model' struct discovered (floor 79), its parser and encoder in zz_generated.go. Non-trivial = a model with ≥1 tagged field (table rows to compare) or a parser with a default branch."
 	p := c.P
+	defer c13GeneratorOrder(c)
 	models, genFiles := discoverModels(p)
 	// ---- R13.14 skipping an unknown element depends only on its length: every reader's Skip
 	// refuses (returns an error) only behind a test of the number of bytes it was asked to
@@ -242,6 +243,58 @@ func C13(c *core.Ctx) {
 			}
 		}
 		c.Floor("R13.14", "Skip implementations of enc.ParseReader", nSkip, 2)
+
+		// ---- R13.16 "inserted at any position": the two operations of the segmented reader
+		// that advance by a length without reading — Skip (an unknown element) and Delegate
+		// (a known one) — move to the next segment under the same comparison of the position
+		// with the segment's length. A Skip that also moves on when it ends exactly at the end
+		// of a segment runs past the last segment and reports EOF for an element that ends
+		// where the wire ends: an unknown non-critical element at the END of a packet fails
+		// every parser, while the same element anywhere else is skipped.
+		ops := map[string]string{}
+		for _, name := range []string{"Skip", "Delegate"} {
+			fn := c.Fn("R13.16", "std/encoding", "WireReader", name)
+			if fn == nil {
+				continue
+			}
+			core.Instrs(fn, func(in ssa.Instruction) {
+				iff, ok := in.(*ssa.If)
+				if !ok || !core.InLoop(iff.Block()) {
+					return
+				}
+				op, x, y, ok := core.Cmp(iff.Cond)
+				if !ok {
+					return
+				}
+				isPos := func(v ssa.Value) bool {
+					_, path := core.FieldPath(core.StripConv(v))
+					return len(path) > 0 && path[len(path)-1] == "pos"
+				}
+				isSegLen := func(v ssa.Value) bool {
+					l, ok := core.LenOf(core.StripConv(v))
+					if !ok {
+						return false
+					}
+					ld, ok := core.Strip(l).(*ssa.UnOp)
+					if !ok {
+						return false
+					}
+					_, isIdx := ld.X.(*ssa.IndexAddr)
+					return isIdx
+				}
+				if isPos(y) && isSegLen(x) {
+					x, y, op = y, x, core.Swap(op)
+				}
+				if isPos(x) && isSegLen(y) {
+					ops[name] = op.String()
+				}
+			})
+		}
+		if len(ops) == 2 {
+			c.Decide(ops["Skip"] == ops["Delegate"], "R13.16", "skip-and-delegate-change-segment-alike", "-", "both move to the next segment when pos "+ops["Skip"]+" len(segment)", "WireReader.Skip moves to the next segment when pos "+ops["Skip"]+" len(segment) but WireReader.Delegate when pos "+ops["Delegate"]+" len(segment): a skip that ends exactly at the end of the last segment steps past it and reports EOF — an unknown non-critical element at the end of a packet read from a segmented wire makes the parser fail, although the same element is skipped at every other position")
+		} else {
+			c.Und("R13.16", "anchor:segment-change loops of WireReader.Skip and Delegate", "-", fmt.Sprintf("found %d of 2 loops that compare the position with the segment length", len(ops)))
+		}
 	}
 	c.Import(C03, "R13.15", "a number primitive that the generated encoders and parsers call deviates from the TLV number code: what one side writes the other side does not read back", 4, func(k string) bool {
 		return strings.HasPrefix(k, "R3.2:table:")
